@@ -33,6 +33,12 @@ pub struct DecCase {
     choices: Vec<u16>,
 }
 
+impl DecCase {
+    pub fn new(ty: usize, choices: Vec<u16>) -> Self {
+        DecCase { ty, name: entries()[ty % entries().len()].name.to_string(), choices }
+    }
+}
+
 /// Builds the mutated input of a case: (entry, valid encoding, mutated bytes, labels).
 pub fn dec_input(case: &DecCase) -> (&'static TypeEntry, Vec<u8>, Vec<u8>, Vec<&'static str>) {
     let e = &entries()[case.ty % entries().len()];
